@@ -17,7 +17,7 @@ func init() {
 	register(&Rule{ID: "R2", Text: r2Text, Run: runR2})
 }
 
-const r2Text = `R2 waiter discipline. A waiter is a function that blocks on a channel W obtained from getWaitCh() inside a critical section of a Broadcast lock L. R2a: between the previous wait (or the function start) and a wait on W, no earlier section of L than the one that assigned W hands out a sample (a captured local it assigns, or the result of the inlined function containing it) that is still read before the wait — the decision to wait and the subscription come from the same section. R2b: every path through a section of L that writes a field occurring in the blocking predicate of some waiter of L and does not call broadcast() cannot turn that predicate from blocked to grantable (finite truth-table evaluation over the predicate's boolean/zero-test atoms; pointer-typed atoms are not decided). R2c: in a waiter every cycle of a for-loop passes through a successful receive. R2d: the broadcast/getWaitCh parameters of a section callback are only called or handed to a synchronously called same-package helper. R2e: inside Broadcast, broadcast closes the current channel and forgets it in the same section; getWaitCh returns a non-nil channel. R2f: every blocking site of a function that takes a context / error channel / cancel channel parameter listens to each of them.`
+const r2Text = `R2 waiter discipline. A waiter is a function that blocks on a channel W obtained from getWaitCh() inside a critical section of a Broadcast lock L. R2a: between the previous wait (or the function start) and a wait on W, no earlier section of L than the one that assigned W hands out a sample (a captured local it assigns, or the result of the inlined function containing it) that is still read before the wait — the decision to wait and the subscription come from the same section. R2b: every path through a section of L that writes a field occurring in the blocking predicate of some waiter of L and does not call broadcast() cannot turn that predicate from blocked to grantable (finite truth-table evaluation over the predicate's boolean, zero-test and nil-test atoms; a write of the value the variable was just found to hold, and the normalisation of a context found dead to nil, change nothing; which object a pointer refers to is not decided). R2c: in a waiter every cycle of a for-loop passes through a successful receive. R2d: the broadcast/getWaitCh parameters of a section callback are only called or handed to a synchronously called same-package helper. R2e: inside Broadcast, broadcast closes the current channel and forgets it in the same section; getWaitCh returns a non-nil channel. R2f: every blocking site of a function that takes a context / error channel / cancel channel parameter listens to each of them.`
 
 var r2Scope = []string{"broadcast", "csync", "ccontainer", "ccall", "conc", "routine", "refcount", "promise"}
 
@@ -200,6 +200,10 @@ func (s *r2State) waiterPath(e core.Entry, p *core.Path) {
 	lastAssign := map[*types.Var]int{}
 	reads := map[*types.Var][]int{}
 	hasWaiter := false
+	var ctxParam *types.Var
+	if e.Decl != nil {
+		ctxParam = paramWhere(e.Decl, isContextType)
+	}
 	secOf := func(i int) *r2Section {
 		var best *r2Section
 		for _, sc := range sections {
@@ -300,10 +304,17 @@ func (s *r2State) waiterPath(e core.Entry, p *core.Path) {
 			if !ok || ev.HasDefault {
 				break
 			}
+			listens := false
 			for w := range wvars {
 				if selectHasArmOn(sel, w, ev.Frame) {
 					checkWait(i, ev, w)
+					listens = true
 				}
+			}
+			if len(wvars) > 0 && ev.Frame.Parent == nil {
+				s.note("R2a", enclosingName(c, ev)+"/blocking-site:select"+c.ordinal(ev.Node)+"/listens-to-subscription", ev.Pos, !listens,
+					"a subscribed waiter's blocking select has an arm on its wait channel",
+					"after subscribing (getWaitCh) the function blocks in a select that has no arm on the wait channel: a state change broadcast while it is blocked here is not noticed", p)
 			}
 			windowStart = i
 		case core.KRecv:
@@ -315,13 +326,25 @@ func (s *r2State) waiterPath(e core.Entry, p *core.Path) {
 			}
 		case core.KCall:
 			// W handed to a blocking callee (AwaitWithCancelCh(ctx, waitCh))
+			handsW, handsCtx := false, false
 			for _, a := range ev.Call.Args {
 				if w := identVar(a, ev.Frame); w != nil {
 					if _, ok := wvars[w]; ok {
 						checkWait(i, ev, w)
 						windowStart = i
+						handsW = true
+					}
+					if ctxParam != nil && w == ctxParam {
+						handsCtx = true
 					}
 				}
+			}
+			// a call that is handed the function's own context may block for as long as that context
+			// lives: a subscribed waiter hands it the wait channel too
+			if handsCtx && len(wvars) > 0 && ev.Frame.Parent == nil && ev.Builtin == "" && ev.Callee != nil && (ev.Callee.Pkg() == nil || ev.Callee.Pkg().Path() != "context") {
+				s.note("R2a", enclosingName(c, ev)+"/blocking-site:"+c.callOrdinal(ev.Call, ev.Frame.Info())+"/listens-to-subscription", ev.Pos, !handsW,
+					"a subscribed waiter that blocks in a call hands that call its wait channel",
+					"after subscribing (getWaitCh) the function blocks in a call that is handed its context but not the wait channel: a state change broadcast while it is blocked there is not noticed", p)
 			}
 		case core.KGo:
 			if ev.FunVal.Kind == core.VFuncLit {
